@@ -38,6 +38,19 @@ CONTRACT(PRE_tround_tdur(t, dur, nextp), POST_tround_tdur(RV, t, dur, nextp));
 static struct dt_t_s tround_tdur_cocl(struct dt_t_s t, struct dt_dtdur_s dur, bool nextp)
 CONTRACT(PRE_tround_tdur_cocl(t, dur, nextp), POST_tround_tdur_cocl(RV, t, dur, nextp));
 
+/* the same rule on epoch values (dround -i %s): the result is the nearest multiple of the step on the requested side, strictly
+ * different from the input with --next; multiples are unchanged without --next */
+#define PRE_sxround_dur_cocl(t, dur, nextp) \
+	(((dur).durtyp == DT_DURH || (dur).durtyp == DT_DURM || (dur).durtyp == DT_DURS) && \
+	 (dur).dv != 0 && (dur).dv > -86401 && (dur).dv < 86401 && CSTEP(dur) <= 86400 && 86400 % CSTEP(dur) == 0 && (t) >= 86400 && (t) < (1ULL << 40))
+#define POST_sxround_dur_cocl(ret, t, dur, nextp) \
+	(((t) % (dt_sexy_t)CSTEP(dur) == 0 && !(nextp)) ? (ret) == (t) : \
+	 ((ret) % (dt_sexy_t)CSTEP(dur) == 0 && \
+	  (RDOWN(dur) ? ((ret) < (t) + ((nextp) ? 0 : 1) && (t) - (ret) <= (dt_sexy_t)CSTEP(dur) && ((t) - (ret) < (dt_sexy_t)CSTEP(dur) || (nextp))) \
+		      : ((ret) + ((nextp) ? 0 : 1) > (t) && (ret) - (t) <= (dt_sexy_t)CSTEP(dur) && ((ret) - (t) < (dt_sexy_t)CSTEP(dur) || (nextp))))))
+static dt_sexy_t sxround_dur_cocl(dt_sexy_t t, struct dt_dtdur_s dur, bool nextp)
+CONTRACT(PRE_sxround_dur_cocl(t, dur, nextp), POST_sxround_dur_cocl(RV, t, dur, nextp));
+
 /* ---- rounding a ymd date to a MONTH value: month == target, day kept but cropped to the target month's length IN THE RESULT YEAR,
  * year moved to the nearest one on the requested side */
 /* the target month is given as a month name (DT_DURYMD, direction in the neg bit) or as a positive value (DT_DURMO, forward) */
